@@ -2,7 +2,7 @@
 
 Correspondence: random schemas (several modules and submodules, nested scopes that declare same-named typedefs,
 every reference form, chains up to 6, random prefix renamings, every attribute at a random subset of the chain
-links, plus single-fault variants: unknown name, unknown prefix, name that exists but is not visible, cyclic
+links, groupings used locally and from importing modules, a rejected extra text, plus single-fault variants: unknown name, unknown prefix, name that exists but is not visible, cyclic
 typedefs, fraction-digits faults, duplicate enum names) are rendered as YANG text for the implementation
 (harness command `process`: Modules.Parse + Process + dump of every leaf's resolved YangType) and as the abstract
 schema for the extracted model (command `c09`: Types.process).  Compared: whether there is any error, and --
@@ -143,6 +143,7 @@ class Module:
     def __init__(self, name, sub, prefix, belongs):
         self.name, self.sub, self.prefix, self.belongs = name, sub, prefix, belongs
         self.imports, self.includes = [], []
+        self.foreign_uses = []      # "pfx:grouping" of an imported module, instantiated at this module's top level
         self.top = Scope("top", name, self, None)
 
     def toks(self):
@@ -220,6 +221,8 @@ def render_module(m):
         out.append("  include %s;" % n)
     out.append("  identity id_%s;" % m.name)
     out += render_body(m.top, 1)
+    for u in m.foreign_uses:
+        out.append("  uses %s;" % u)
     out.append("}")
     return "\n".join(out) + "\n"
 
@@ -338,8 +341,25 @@ class Gen:
         rnd.shuffle(mods)                               # load order is arbitrary
         for m in mods:
             self.grow(m.top, 0)
-        # make sure that the interesting shape exists: one chain of >= 3 nested declaring scopes
-        return Schema(mods)
+        # a grouping is resolved where it is written, wherever it is used: use some top-level groupings of
+        # imported modules from the importing (sub)module as well
+        S = Schema(mods)
+        used = set()
+        for m in mods:
+            seen = set()
+            for pf, n in m.imports:
+                if pf in seen or pf == m.prefix:
+                    continue
+                seen.add(pf)
+                b = S.find_mod(False, n)
+                gs = [k for k in b.top.kids if k.kind == "grouping"] if b is not None else []
+                if gs and rnd.random() < 0.4:
+                    g = rnd.choice(gs).name
+                    fam = (m.belongs or m.name, g)      # once per module family: submodule trees are merged
+                    if fam not in used:
+                        used.add(fam)
+                        m.foreign_uses.append(pf + ":" + g)
+        return S
 
     def kid_kinds(self, sc):
         k = sc.kind
@@ -363,8 +383,6 @@ class Gen:
             for _ in range(rnd.choice([0, 1, 1, 2])):
                 lf = Leaf(self.fresh("lf"))
                 lf.style = rnd.choice(["leaf", "leaf", "leaf", "leaf-list", "choice"])
-                if sc.kind in ("top",) and lf.style == "choice" and False:
-                    lf.style = "leaf"
                 sc.leaves.append(lf)
         if depth < (4 if not self.big else 5):
             kinds = self.kid_kinds(sc)
@@ -855,8 +873,6 @@ def compare(goline, mlline, intent, nbad=0):
     found = {}
     for md in run.get("modules") or []:
         go_leaves(md["tree"], found)
-    if run.get("treeviol"):
-        pass
     for x in leaves:
         name = unhex(x["leaf"])
         want = canon_model(x["type"])
@@ -913,6 +929,7 @@ def stats(S, hist):
     for a in attrs:
         hist["attr:" + a] = hist.get("attr:" + a, 0) + 1
     hist["submodules"] = hist.get("submodules", 0) + sum(1 for m in S.mods if m.sub)
+    hist["foreign_uses"] = hist.get("foreign_uses", 0) + sum(len(m.foreign_uses) for m in S.mods)
 
 
 def build_cases(tier, seed):
@@ -966,7 +983,6 @@ def run(res, tier, seed, proof):
                 res.violation("model-vs-implementation disagree (%s): %s" % (label, why[:600]),
                               dict(kind="correspondence", label=label, intent=intent, go_case=gl, ml_case=mll,
                                    texts=texts, nbad=nbad, why=why))
-    nontrivial = sum(1 for c in cases if c[0] != "random" or True)
     mid = len(cases) // 2
     cov = dict(
         evaluations=len(cases), distinct_nontrivial=len({c[3] for c in cases}),
